@@ -29,17 +29,17 @@ def PivotOK (c : Cfg) (d : Data) (lo hi : Int) : Prop :=
 
 /-- The configurations for which `Sort` is proved correct.  Tuning constants may take any value for which the
 algorithm works: the quicksort threshold any `T ≥ 2` (`doPivot` needs 3 distinct sample positions), the tail test
-any `K ≤ 1`, the Shell gap any `G ≥ 0`, the ninther threshold, `protect` bound, `dups` bound and `maxDepth` factor
+any `K ≤ 1`, the Shell pass any start `a+G` and offset `i-G'` with `0 ≤ G' ≤ G`, the ninther threshold, `protect` bound, `dups` bound and `maxDepth` factor
 anything, the ninther step `s = n/D` any `D ≥ 3` with factor `0 ≤ M < D` (all nine sample positions stay inside
 the range), the duplicate test divisor `Q < 0` (never taken) or `Q ≥ 3` (the probed positions `m`, `b-1` stay inside
 the `≤ pivot` zone), the heap build start `(hi-S)/D` any start at or after the last inner node, the `maxDepth` shift
 any `S ≥ 1` (termination).  The heap child arithmetic `2*root+1`, `+1` and the midpoint shift `>> 1` are dictated by
 the algorithm. -/
 def Cfg.Admissible (c : Cfg) : Prop :=
-  2 ≤ c.qsSmall ∧ c.qsMin ≤ 1 ∧ 0 ≤ c.shellGap ∧ c.pivotShift = 1 ∧
-  3 ≤ c.nintherDiv ∧ 0 ≤ c.nintherMul ∧ c.nintherMul < c.nintherDiv ∧
+  2 ≤ c.qsSmall ∧ c.qsMin ≤ 1 ∧ (0 ≤ c.shellGapIdx ∧ c.shellGapIdx ≤ c.shellGap) ∧ c.pivotShift = 1 ∧
+  3 ≤ c.nintherDiv ∧ (0 ≤ c.nintherMul ∧ 0 ≤ c.nintherMul2) ∧ (c.nintherMul < c.nintherDiv ∧ c.nintherMul2 < c.nintherDiv) ∧
   (c.dupsDiv < 0 ∨ 3 ≤ c.dupsDiv) ∧
-  c.heapMul = 2 ∧ c.heapAdd = 1 ∧ c.heapSib = 1 ∧
+  c.heapMul = 2 ∧ c.heapAdd = 1 ∧ (c.heapSib = 1 ∧ c.heapSibIdx = 1) ∧
   ((c.heapBuildDiv = 2 ∧ c.heapBuildSub ≤ 2) ∨ (c.heapBuildDiv = 1 ∧ c.heapBuildSub ≤ 1)) ∧
   1 ≤ c.mdShift
 
